@@ -10,7 +10,7 @@ From Coq Require Import Strings.String.
 From Coq Require Import Strings.Byte.
 From Nexus Require Import Codec.Bytes Codec.Values Codec.Tlv Codec.MsgPack Codec.Cbor Codec.Json
      Codec.Schema Codec.MsgList Codec.Serial Codec.Canon
-     Codec.TlvProofs Codec.MsgPackProofs Codec.CborProofs Codec.MsgListProofs Codec.SerialProofs
+     Codec.TlvProofs Codec.MsgPackProofs Codec.CborProofs Codec.JsonProofs Codec.MsgListProofs Codec.SerialProofs
      Codec.C14Conf gen.GenC14Schema.
 Import ListNotations.
 Local Open Scope list_scope.
@@ -84,6 +84,36 @@ Theorem cbor_roundtrip_decoder :
 Proof. exact cb_roundtrip_max. Qed.
 Print Assumptions cbor_roundtrip_decoder.
 
+(** ** JSON: integers, strings (escaping), binary (NUL + base64), containers;
+    floats as an opaque token class — the float text oracle [fprint]/[fparse]
+    (Go's strconv as ugorji calls it) is ASSUMED, on [fdom] only, to produce a
+    number token that reads back as the same float.  Go satisfies this
+    outside [2^52, 1e21) ([json_float_dom]); inside it does not (known finding
+    json:float-from-2^52-written-as-integer-literal). *)
+
+Theorem json_roundtrip :
+  forall (fprint : N -> bytes) (fparse : bytes -> option N) (fdom : N -> bool),
+    (forall f, fdom f = true ->
+               float_is_nan_or_inf f = false
+               /\ forallb is_num_char (fprint f) = true
+               /\ (exists b t, fprint f = b :: t /\ (b2n b = c_minus \/ is_digit b = true))
+               /\ num_of_token fparse (fprint f) = Some (VFloat f)) ->
+    forall (v : value) (rest : bytes),
+      json_dom fdom v = true -> (depth v <= max_nesting)%nat -> delim_ok rest = true ->
+      js_decode fparse (js_encode fprint v ++ rest) = DOk (canon_js v) rest.
+Proof. exact json_roundtrip_top. Qed.
+Print Assumptions json_roundtrip.
+
+(** the float-free fragment needs no assumption at all *)
+Theorem json_roundtrip_no_floats :
+  forall (fprint : N -> bytes) (fparse : bytes -> option N) (v : value) (rest : bytes),
+    json_dom (fun _ => false) v = true -> (depth v <= max_nesting)%nat -> delim_ok rest = true ->
+    js_decode fparse (js_encode fprint v ++ rest) = DOk (canon_js v) rest.
+Proof.
+  exact (fun fp fq => json_roundtrip_top fp fq (fun _ => false) (fun f H => False_ind _ (Bool.diff_false_true H))).
+Qed.
+Print Assumptions json_roundtrip_no_floats.
+
 (** ** Deserialize (Serialize m) = m, up to numeric kind and nil/empty *)
 
 Theorem msgpack_serialize_deserialize_gen :
@@ -108,6 +138,24 @@ Theorem cbor_serialize_deserialize_gen :
       /\ msg_norm m' = msg_norm (canon_msg FCbor m).
 Proof. exact (fun fp fq m t => cbor_serialize_deserialize fp fq gen_mp_opts gen_schema m t gen_schema_ok). Qed.
 Print Assumptions cbor_serialize_deserialize_gen.
+
+Theorem json_serialize_deserialize_gen :
+  forall (fprint : N -> bytes) (fparse : bytes -> option N) (fdom : N -> bool),
+    (forall f, fdom f = true ->
+               float_is_nan_or_inf f = false
+               /\ forallb is_num_char (fprint f) = true
+               /\ (exists b t, fprint f = b :: t /\ (b2n b = c_minus \/ is_digit b = true))
+               /\ num_of_token fparse (fprint f) = Some (VFloat f)) ->
+    forall (m : msg) (trailing : bytes),
+      wf_msg gen_schema m = true -> payload_json_ok fdom m = true -> payload_depth_ok m -> delim_ok trailing = true ->
+      exists bs m',
+        serialize fprint gen_mp_opts gen_schema FJson m = SerOk bs
+        /\ deserialize fparse gen_mp_opts intended_shape gen_schema FJson (bs ++ trailing) = OOk m'
+        /\ msg_norm m' = msg_norm (canon_msg FJson m).
+Proof.
+  exact (fun fp fq fd H m t => json_serialize_deserialize fp fq fd H gen_mp_opts gen_schema m t gen_schema_ok).
+Qed.
+Print Assumptions json_serialize_deserialize_gen.
 
 (** ** The formats decode each other's meaning identically (up to numeric kind) *)
 
@@ -149,6 +197,10 @@ Print Assumptions decode_msgpack_total.
 Theorem decode_cbor_total : forall bs : bytes, cb_decode bs <> DFuel.
 Proof. exact cb_decode_total. Qed.
 Print Assumptions decode_cbor_total.
+
+Theorem decode_json_total : forall (fparse : bytes -> option N) (bs : bytes), js_decode fparse bs <> DFuel.
+Proof. exact js_decode_total. Qed.
+Print Assumptions decode_json_total.
 
 (** ** Refuted for the UNREPAIRED behaviour (a tree whose listToMsg uses
     reflect's conversion table, whose Deserialize decodes into a []any): the
@@ -215,6 +267,14 @@ Example ex_value_domain :
   mp_wfv v = true /\ cb_wfv v = true
   /\ canon_mp v = VList [VInt KI64 5; VInt KU64 200; VInt KI64 (-33); VStr (ex_key [97]); VDict [(ex_key [107], VList [])]]
   /\ canon_cb v = VList [VInt KU64 5; VInt KU64 200; VInt KI64 (-33); VStr (ex_key [97]); VDict [(ex_key [107], VList [])]].
+Proof. vm_compute. auto. Qed.
+
+Example ex_json_domain :
+  json_dom (fun _ => false) (VList [VInt KU64 5; VInt KI64 (-33); VStr (ex_key [34; 92; 195; 169; 226; 128; 168; 60]);
+                                    VBin (ex_key [1; 2; 3]); VDict [(ex_key [107], VList [VNull; VBool true])]]) = true
+  /\ js_encode (fun _ => []) (VList [VInt KU64 5; VInt KI64 (-33); VStr (ex_key [34; 92; 195; 169; 226; 128; 168; 60]); VBin (ex_key [1; 2; 3])])
+     = map n2b [91; 53; 44; 45; 51; 51; 44; 34; 92; 34; 92; 92; 195; 169; 92; 117; 50; 48; 50; 56; 92; 117; 48; 48; 51; 99; 34; 44;
+                34; 92; 117; 48; 48; 48; 48; 65; 81; 73; 68; 34; 93]%N.
 Proof. vm_compute. auto. Qed.
 
 (** list_to_msg_total is not vacuous: a compatible list gives a message, an
